@@ -458,40 +458,131 @@ def rule_spec_total(chk, prog):
 # ----------------------------------------------------------------------------
 # norm-ueg, vmap-heg  (E-mono)
 # ----------------------------------------------------------------------------
+def ueg_semilocal_by_mode(prog):
+    """slmode -> (rho, inh) of the uniform gas as canonical forms, derived from the source:
+    SemilocalSettings.ueg_vector(rho) under self.mode == m gives the raw semilocal rows, which
+    FeatNormalizerList._get_rho_and_inh maps (under self.slmode == m) to (rho, inh).  The UEG density
+    is taken to lie above the normaliser cutoff (max(rho, self.cutoff) -> rho)."""
+    st = prog.module(ST)
+    fnm = prog.module(FN)
+    # the two mode attributes are the same value: FeatNormalizerList(..., slmode=self.sl_settings.mode)
+    fs = st.cls("FeatureSettings")
+    sites = [n for m_ in pf.methods(fs).values() for n in pf.walk_no_nested(m_)
+             if isinstance(n, ast.Call) and pf.call_name(n) == "FeatNormalizerList"]
+    if not sites:
+        raise core.AnalysisError("FeatureSettings no longer constructs a FeatNormalizerList")
+    for n in sites:
+        kw = {k.arg: k.value for k in n.keywords}
+        v = kw.get("slmode", n.args[1] if len(n.args) > 1 else None)
+        if v is None or pf.src(v) != "self.sl_settings.mode":
+            raise core.AnalysisError("FeatNormalizerList is built with slmode=%s, expected self.sl_settings.mode" % (
+                pf.src(v) if v is not None else None))
+    lst = fnm.cls("FeatNormalizerList")
+    init = pf.methods(lst).get("__init__")
+    modes = None
+    for n in pf.walk_no_nested(init) if init else []:
+        if isinstance(n, ast.Compare) and len(n.ops) == 1 and isinstance(n.ops[0], (ast.NotIn, ast.In)) \
+                and isinstance(n.left, ast.Name) and n.left.id == "slmode":
+            modes = resolve_table(fnm, n.comparators[0])
+    if not modes:
+        modes = C12.slmode_literals([pf.methods(lst)["_get_rho_and_inh"]]) + [mono.ELSE]
+    sl = st.cls("SemilocalSettings")
+    uv = pf.methods(sl).get("ueg_vector")
+    gri = pf.methods(lst).get("_get_rho_and_inh")
+    if uv is None or gri is None:
+        raise core.AnalysisError("SemilocalSettings.ueg_vector / FeatNormalizerList._get_rho_and_inh vanished")
+    out = {}
+    for mode in modes:
+        ev = C12.method_evaluator(prog, st, sl, uv, ["RHO"], {"self.mode": mode})
+        rows = ev.run_function(uv)
+        if not (isinstance(rows, tuple) and all(isinstance(r, Poly) for r in rows)):
+            raise core.AnalysisError("SemilocalSettings.ueg_vector(mode=%r) is not a literal row vector: %r" % (mode, rows))
+        ev2 = C12.method_evaluator(prog, fnm, lst, gri, ["X"], {"self.slmode": mode})
+        ev2.env[gri.args.args[1].arg] = rows
+        r = ev2.run_function(gri)
+        if not (isinstance(r, tuple) and len(r) == 2 and all(isinstance(v, Poly) for v in r)):
+            raise core.AnalysisError("_get_rho_and_inh(slmode=%r) at the UEG is outside the monomial fragment: %r" % (mode, r))
+        rho, inh = r
+        # UEG density above the cutoff: max(RHO, self.cutoff) == RHO
+        RHO = Poly.name("RHO")
+        clamp = {a: RHO for a in (rho.atoms() | inh.atoms())
+                 if a[0] == "f" and a[1] == "max" and RHO.key in a[2] and len(a[2]) == 2}
+        try:
+            rho, inh = rho.subst(clamp), inh.subst(clamp)
+        except NotComparable as e:
+            raise core.AnalysisError("cannot remove the density clamp at the UEG: %s" % e)
+        out["<else>" if mode is mono.ELSE else mode] = (rho, inh)
+    return out
+
+
 def rule_norm_ueg(chk, prog):
     mod, classes = C12.normalizer_classes(prog)
+    ueg = ueg_semilocal_by_mode(prog)
+    chk.extra["ueg_rho_inh_by_slmode"] = {m: {"rho": mono.show(r), "inh": mono.show(i)} for m, (r, i) in ueg.items()}
+    lst = mod.cls("FeatNormalizerList")
+    uvl = pf.methods(lst).get("ueg_vector")
+    if uvl is None:
+        raise core.AnalysisError("FeatNormalizerList.ueg_vector vanished")
+    calls = [n for n in pf.walk_no_nested(uvl) if isinstance(n, ast.Call) and isinstance(n.func, ast.Attribute)
+             and n.func.attr == "get_ueg"]
+    if len(calls) != 1:
+        raise core.AnalysisError("FeatNormalizerList.ueg_vector: expected one get_ueg call, found %d" % len(calls))
+    gcall = calls[0]
     for cls in classes:
         cname = cls.name
         rf = prog.find_method(mod, cls, "fill_fwd")
         ru = prog.find_method(mod, cls, "get_ueg")
         if rf is None or ru is None or rf[1].name == "FeatNormalizer" or ru[1].name == "FeatNormalizer":
             raise core.AnalysisError("%s lacks fill_fwd/get_ueg" % cname)
-        ev = C12.method_evaluator(prog, mod, cls, rf[2], C12.FWD_ROLES)
-        params = [a.arg for a in rf[2].args.args[1:]]
-        ev.env[params[0]] = mono.ONE  # x = 1
-        ev.env[params[2]] = mono.ZERO  # inh = 0
-        ev.run_function(rf[2])
-        st = [s for s in ev.stores if isinstance(s.target, mono.Buf) and s.target.role == "xn"]
-        ev2 = C12.method_evaluator(prog, mod, cls, ru[2], ["RHO"])
-        U = ev2.run_function(ru[2])
-        inst = "%s get_ueg vs fill_fwd(x=1, inh=0)" % cname
-        if len(st) != 1 or st[0].op != "=" or st[0].depth != 0 or not isinstance(st[0].value, Poly) \
-                or not isinstance(U, Poly):
-            chk.note("norm-ueg", "%s:%s" % (FN, cname), "not comparable: stores %r, get_ueg %r" % (st, U))
+        bad, good, nc = [], [], []
+        for mname, (rho_u, inh_u) in ueg.items():
+            mode = mono.ELSE if mname == "<else>" else mname
+            ev = C12.method_evaluator(prog, mod, cls, rf[2], C12.FWD_ROLES)
+            params = [a.arg for a in rf[2].args.args[1:]]
+            ev.env[params[0]] = mono.ONE  # x = 1
+            ev.env[params[1]] = rho_u
+            ev.env[params[2]] = inh_u
+            ev.run_function(rf[2])
+            st = [s_ for s_ in ev.stores if isinstance(s_.target, mono.Buf) and s_.target.role == "xn"]
+            # the arguments FeatNormalizerList.ueg_vector passes to get_ueg under this slmode
+            uparams = [a.arg for a in ru[2].args.args[1:]]
+            evl = C12.method_evaluator(prog, mod, lst, uvl, ["RHO"], {"self.slmode": mode})
+            evl.run_function(uvl)  # locals such as a mode-dependent `inh` are bound before the call
+            vals = [evl._safe(lambda a=a: evl.ev(a)) for a in gcall.args]
+            kws = {k.arg: evl._safe(lambda k=k: evl.ev(k.value)) for k in gcall.keywords}
+            ev2 = C12.method_evaluator(prog, mod, cls, ru[2], ["RHO"] + ["P%d" % i for i in range(len(uparams) - 1)])
+            benv = mono.bind_params(ru[2], vals)
+            for k, v in kws.items():
+                if k in uparams:
+                    benv[k] = v
+            ev2.env.update(benv)
+            U = ev2.run_function(ru[2])
+            if len(st) != 1 or st[0].op != "=" or st[0].depth != 0 or not isinstance(st[0].value, Poly) \
+                    or not isinstance(U, Poly):
+                nc.append((mname, "stores %r, get_ueg %r" % (st, U)))
+                continue
+            verdict = mono.definitely_different(st[0].value, U)
+            if verdict == "equal":
+                good.append((mname, U))
+            elif verdict == "different":
+                bad.append((mname, st[0].value, U, inh_u))
+            else:
+                nc.append((mname, "%s vs %s" % (mono.show(st[0].value), mono.show(U))))
+        inst = "%s get_ueg vs fill_fwd at the UEG, slmodes %s" % (cname, sorted(ueg))
+        for mname, why in nc:
+            chk.note("norm-ueg", "%s:%s" % (FN, cname), "slmode=%s not comparable: %s" % (mname, why))
             chk.count("norm-ueg not-comparable")
-            continue
-        P = st[0].value
-        verdict = mono.definitely_different(P, U)
-        if verdict == "equal":
-            chk.ok("norm-ueg", inst + " = " + mono.show(U)[:60])
-        elif verdict == "different":
-            chk.violation("norm-ueg", FN, cname + ".get_ueg", "get_ueg vs fill_fwd", ru[2].lineno,
-                          "for the uniform gas (x=1, inh=0) fill_fwd multiplies a feature by  %s  but get_ueg reports  "
-                          "%s : FeatureSettings.ueg_vector(with_normalizers=True) is not the normalised UEG feature" % (
-                              mono.show(P), mono.show(U)), instance=inst)
-        else:
-            chk.note("norm-ueg", "%s:%s" % (FN, cname), "not comparable: %s vs %s" % (mono.show(P), mono.show(U)))
-            chk.count("norm-ueg not-comparable")
+        if bad:
+            parts = ["slmode=%s (UEG inh = %s): forward pass multiplies by  %s , reported  %s" % (
+                m_, mono.show(i_), mono.show(p_), mono.show(u_)) for m_, p_, u_, i_ in bad]
+            chk.violation("norm-ueg", FN, cname + ".get_ueg", "get_ueg vs fill_fwd at the UEG for slmode %s" % (
+                "/".join(sorted(m_ for m_, _, _, _ in bad))), ru[2].lineno,
+                          "the UEG factor FeatNormalizerList.ueg_vector reports through get_ueg differs from what "
+                          "fill_fwd applies to the uniform gas for %s; agrees for %s.  "
+                          "FeatureSettings.ueg_vector(with_normalizers=True) is then not the normalised UEG feature" % (
+                              "; ".join(parts), [m_ for m_, _ in good] or "no slmode"), instance=inst)
+        elif good:
+            chk.ok("norm-ueg", inst + " = " + mono.show(good[0][1])[:50])
     # FeatNormalizerList.ueg_vector: None -> 1.0 mirrors None -> identity of get_normalized_feature_vector
     lst = mod.cls("FeatNormalizerList")
     ms = pf.methods(lst)
@@ -718,6 +809,8 @@ def emission_tree(fn):
         return None
 
     def canon_iter(it, ren):
+        if pf.call_name(it) == "enumerate" and len(it.args) == 1:
+            it = it.args[0]  # enumerate(X) walks X in the same order
         s = pf.src(it)
         for old, new in ren.items():
             s = _rename(s, it, old, new)
@@ -1142,6 +1235,274 @@ def rule_rho_mult_theta(chk, prog):
 
 
 # ----------------------------------------------------------------------------
+# ueg-moment: the closed-form UEG integral of every spec, relative to `se`, is the Gaussian moment
+# that the kernel definition of that spec implies (the same reference C02 `chain-j` / `chain-i`
+# checks the C coefficients against)
+# ----------------------------------------------------------------------------
+# T = total exponent of the Gaussian the density is integrated against, E = exponent of the r
+# coordinate (feat_params), X = erf multiplier (last parameter)
+J_MOMENTS = {"se": "1", "se_ar2": "3.0 / 2 * E / T", "se_a2r4": "15.0 / 4 * E ** 2 / T ** 2",
+             "se_erf_rinv": "(1 + X * E / T) ** (-1.0 / 2)"}
+# version i: <r^2> = 3/(2T); se_ap = T*se, se_apr2 = T*se_r2, se_ap2r2 = T^2*se_r2, se_lapl = 4*se_ap2r2 - 2*se_ap
+I_MOMENTS = {"se": "1", "se_r2": "3.0 / 2 / T", "se_apr2": "3.0 / 2", "se_ap": "T", "se_ap2r2": "3.0 / 2 * T",
+             "se_lapl": "4 * (3.0 / 2 * T) - 2 * T"}
+
+
+def rule_ueg_moment(chk, prog):
+    mod, classes = family(prog, "NLDFSettings")
+    chk.extra["moment_reference"] = {"j": J_MOMENTS, "i": I_MOMENTS}
+    for cls in classes:
+        fn0 = pf.methods(cls).get("ueg_vector")
+        if fn0 is None or cls.name == "NLDFSettings":
+            continue
+        fn = hinline.inline_helpers(fn0, hinline.class_resolver(prog, mod, cls, exclude=("_ueg_rho_mult", "_get_ueg_expnt")))
+        lads = [l for l in ladders(fn) + dict_ladders(fn, mod, cls, prog) if isinstance(l[1], ast.Name)]
+        if not lads:
+            continue  # composed classes (version ij) delegate to the classes checked here
+        if len(lads) != 1:
+            raise core.AnalysisError("%s.ueg_vector: expected one spec ladder, found %d" % (cls.name, len(lads)))
+        head, var, lits, els = lads[0]
+        table = J_MOMENTS if set(lits) <= set(J_MOMENTS) else (I_MOMENTS if set(lits) <= set(I_MOMENTS) else None)
+        if table is None or "se" not in lits:
+            raise core.AnalysisError("%s.ueg_vector: ladder %s matches no moment table" % (cls.name, lits))
+        rho_name = fn.args.args[1].arg if len(fn.args.args) > 1 else "rho"
+
+        def run(spec):
+            got = []
+
+            def leaf(node):
+                if isinstance(node, ast.Subscript):
+                    if pf.is_self_attr(node.value, "theta_params"):
+                        return Poly.name("TH")
+                    if params_like(node.value, fn, True) in ("element of self.feat_params", "self.feat_params[.]"):
+                        k = node.slice
+                        neg1 = isinstance(k, ast.UnaryOp) and isinstance(k.op, ast.USub) and pf.src(k.operand) == "1"
+                        return Poly.name("X") if neg1 else Poly.name("FP")
+                return None
+
+            def hook(node, ev):
+                nm = pf.call_name(node) or ""
+                if nm.endswith("_get_ueg_expnt") and node.args:
+                    a = ev._safe(lambda: ev.poly(node.args[0]))
+                    if not isinstance(a, Poly):
+                        return None
+                    names = {x[1] for x in a.atoms() if x[0] == "n"}
+                    if names == {"TH", "FP"}:
+                        return Poly.name("S")
+                    if names == {"FP"}:
+                        return Poly.name("E")
+                    if names == {"TH"}:
+                        return Poly.name("A")
+                    return None
+                if nm.endswith("_ueg_rho_mult"):
+                    return Poly.name("RM")
+                if isinstance(node.func, ast.Attribute) and node.func.attr == "append" and len(node.args) == 1:
+                    got.append(ev._safe(lambda: ev.poly(node.args[0])))
+                    return mono.PyConst(None)
+                return None
+
+            ev = Evaluator(env={rho_name: Poly.name("RHO")}, assume={pf.src(var): spec}, leaf=leaf, call=hook,
+                           module_consts=mod.assigns)
+            ev.eval_expr_calls = True
+            ev.run_function(fn)
+            vals = [g for g in got if isinstance(g, Poly)]
+            return vals[0] if len(got) == 1 and vals else (got[0] if got else None)
+
+        base = run("se")
+        if not isinstance(base, Poly) or not base.is_monomial():
+            raise core.AnalysisError("%s.ueg_vector: UEG value of spec 'se' is outside the monomial fragment (%r)" % (cls.name, base))
+        names = {a[1] for a in base.atoms() if a[0] == "n"}
+        T = "S" if "S" in names else ("E" if "E" in names else "A")
+        env = {"T": Poly.name(T), "E": Poly.name("E") if T != "A" else Poly.name(T), "X": Poly.name("X")}
+        for spec in lits:
+            if spec == "se":
+                continue
+            qn = "%s.ueg_vector" % cls.name
+            inst = "%s spec %s relative to se" % (qn, spec)
+            got = run(spec)
+            want = Evaluator(env=env).ev(ast.parse(table[spec], mode="eval").body)
+            if not isinstance(got, Poly):
+                chk.note("ueg-moment", "%s:%s" % (ST, qn), "spec %s: value outside the monomial fragment (%r)" % (spec, got))
+                chk.count("ueg-moment not-comparable")
+                continue
+            try:
+                ratio = got / base
+            except NotComparable as e:
+                chk.note("ueg-moment", "%s:%s" % (ST, qn), "spec %s: %s" % (spec, e))
+                chk.count("ueg-moment not-comparable")
+                continue
+            verdict = mono.definitely_different(ratio, want)
+            if verdict == "equal":
+                chk.ok("ueg-moment", inst + " = " + mono.show(want)[:50])
+            elif verdict == "different":
+                chk.violation("ueg-moment", ST, qn, "spec %s" % spec, head.lineno,
+                              "the UEG value of spec %r divided by that of 'se' is  %s  but the kernel of %r integrated "
+                              "against a Gaussian of total exponent %s has the moment  %s  (T = total exponent%s); the "
+                              "reported UEG feature differs from the feature computed for a uniform density" % (
+                                  spec, mono.show(ratio), spec, T, mono.show(want),
+                                  ", E = exponent from feat_params, X = erf multiplier" if table is J_MOMENTS else ""),
+                              instance=inst)
+            else:
+                chk.note("ueg-moment", "%s:%s" % (ST, qn), "spec %s not comparable: %s vs %s" % (
+                    spec, mono.show(ratio), mono.show(want)))
+                chk.count("ueg-moment not-comparable")
+
+
+# ----------------------------------------------------------------------------
+# fresh-mutate: an object obtained from a helper and mutated by the caller is fresh
+# ----------------------------------------------------------------------------
+MUTATORS = {"append", "extend", "insert", "pop", "remove", "clear", "update", "setdefault", "sort", "reverse",
+            "popitem", "fill", "resize"}
+FRESH_CALLS = {"dict", "list", "set", "sorted", "tuple", "np.array", "numpy.array", "np.zeros", "np.ones", "np.empty",
+               "np.concatenate", "np.append", "np.cumsum", "copy.copy", "copy.deepcopy", "deepcopy", "np.copy"}
+
+
+def freshness(mod, helper):
+    """('fresh' | 'persistent' | 'unknown', reason) for the object(s) a helper returns"""
+    rets = [n for n in pf.walk_no_nested(helper) if isinstance(n, ast.Return) and n.value is not None]
+    if not rets:
+        return "unknown", "no return value"
+    leaks = {}  # local name -> persistent place it is stored in
+    globs = set()
+    for n in pf.walk_no_nested(helper):
+        if isinstance(n, ast.Global):
+            globs |= set(n.names)
+        if isinstance(n, ast.Assign) and isinstance(n.value, ast.Name):
+            for t in n.targets:
+                root = pf.base_name(t)
+                if isinstance(t, (ast.Attribute, ast.Subscript)) and (
+                        root in ("self", "cls") or root in mod.classes or root in mod.assigns):
+                    leaks[n.value.id] = pf.src(t)
+
+    def classify(e, depth=0):
+        if isinstance(e, (ast.Dict, ast.List, ast.Set, ast.ListComp, ast.DictComp, ast.SetComp, ast.Tuple,
+                          ast.Constant, ast.JoinedStr)):
+            return "fresh", ""
+        if isinstance(e, ast.BinOp):
+            return "fresh", ""
+        if isinstance(e, ast.Call):
+            nm = pf.call_name(e) or ""
+            if nm in FRESH_CALLS or (isinstance(e.func, ast.Attribute) and e.func.attr in ("copy", "astype", "tolist")):
+                return "fresh", ""
+            return "unknown", "call %s" % nm
+        if isinstance(e, ast.IfExp):
+            a, b = classify(e.body, depth), classify(e.orelse, depth)
+            for v in (a, b):
+                if v[0] == "persistent":
+                    return v
+            return a if a[0] == "unknown" else b
+        if isinstance(e, (ast.Attribute, ast.Subscript)):
+            root = pf.base_name(e)
+            if root in ("self", "cls") or root in mod.classes:
+                return "persistent", "returns %s, an object that outlives the call" % pf.src(e)
+            if root in mod.assigns:
+                return "persistent", "returns the module-level object %s" % pf.src(e)
+            return "unknown", pf.src(e)
+        if isinstance(e, ast.Name):
+            if e.id in globs or (e.id in mod.assigns and not any(
+                    isinstance(n, ast.Name) and n.id == e.id and isinstance(n.ctx, ast.Store) for n in ast.walk(helper))):
+                return "persistent", "returns the module-level object %s" % e.id
+            if e.id in leaks:
+                return "persistent", "returns %s, which it also keeps in %s (memo)" % (e.id, leaks[e.id])
+            if depth > 3:
+                return "unknown", e.id
+            vals = [n.value for n in pf.walk_no_nested(helper) if isinstance(n, ast.Assign)
+                    and any(isinstance(t, ast.Name) and t.id == e.id for t in n.targets)]
+            if not vals:
+                return "unknown", "%s is not assigned in the helper" % e.id
+            res = [classify(v, depth + 1) for v in vals]
+            for r in res:
+                if r[0] == "persistent":
+                    return r
+            for r in res:
+                if r[0] == "unknown":
+                    return r
+            return "fresh", ""
+        return "unknown", type(e).__name__
+
+    res = [classify(r.value) for r in rets]
+    for r in res:
+        if r[0] == "persistent":
+            return r
+    for r in res:
+        if r[0] == "unknown":
+            return r
+    return "fresh", ""
+
+
+def rule_fresh_mutate(chk, prog):
+    mod = prog.module(ST)
+    for m, cls in prog.subclasses("BaseSettings"):
+        if m.rel != ST:
+            continue
+        for fn in pf.methods(cls).values():
+            # locals bound to the result of a helper of the same object (method call, super() call, property)
+            src = {}
+            for n in pf.walk_no_nested(fn):
+                if not (isinstance(n, ast.Assign) and len(n.targets) == 1 and isinstance(n.targets[0], ast.Name)):
+                    continue
+                v = n.value
+                helper = None
+                if isinstance(v, ast.Call) and isinstance(v.func, ast.Attribute):
+                    recv = v.func.value
+                    if isinstance(recv, ast.Name) and recv.id == "self":
+                        r = prog.find_method(mod, cls, v.func.attr)
+                        helper = r[2] if r else None
+                    elif isinstance(recv, ast.Call) and pf.call_name(recv) == "super":
+                        for m2, c2 in prog.mro(mod, cls)[1:]:
+                            if v.func.attr in pf.methods(c2):
+                                helper = pf.methods(c2)[v.func.attr]
+                                break
+                elif isinstance(v, ast.Attribute):
+                    recv = v.value
+                    cands = []
+                    if isinstance(recv, ast.Name) and recv.id == "self":
+                        cands = prog.mro(mod, cls)
+                    elif isinstance(recv, ast.Call) and pf.call_name(recv) == "super":
+                        cands = prog.mro(mod, cls)[1:]
+                    for m2, c2 in cands:
+                        f2 = pf.methods(c2).get(v.attr)
+                        if f2 is not None and any(pf.src(d) == "property" for d in f2.decorator_list):
+                            helper = f2
+                            break
+                if helper is not None and helper is not fn:
+                    src[n.targets[0].id] = (helper, n)
+            if not src:
+                continue
+            for n in pf.walk_no_nested(fn):
+                name, how = None, None
+                if isinstance(n, (ast.Assign, ast.AugAssign, ast.Delete)):
+                    tgts = n.targets if not isinstance(n, ast.AugAssign) else [n.target]
+                    for t in tgts:
+                        if isinstance(t, ast.Subscript) and isinstance(t.value, ast.Name) and t.value.id in src:
+                            name, how = t.value.id, pf.src(n)
+                        elif isinstance(n, ast.AugAssign) and isinstance(t, ast.Name) and t.id in src:
+                            name, how = t.id, pf.src(n)
+                elif isinstance(n, ast.Call) and isinstance(n.func, ast.Attribute) and n.func.attr in MUTATORS \
+                        and isinstance(n.func.value, ast.Name) and n.func.value.id in src:
+                    name, how = n.func.value.id, pf.src(n)
+                if name is None:
+                    continue
+                helper, bind = src[name]
+                verdict, why = freshness(mod, helper)
+                qn = "%s.%s" % (cls.name, fn.name)
+                inst = "%s mutates %s = %s (%s)" % (qn, name, pf.src(bind.value)[:50], verdict)
+                if verdict == "persistent":
+                    chk.violation("fresh-mutate", ST, qn, how[:120], n.lineno,
+                                  "%s changes `%s` in place (%s), but %s %s: the change leaks into every later call "
+                                  "(the reported values drift with the call history)" % (
+                                      qn, name, how[:80], pf.qualname(helper), why), instance=inst)
+                elif verdict == "fresh":
+                    chk.ok("fresh-mutate", inst)
+                else:
+                    chk.note("fresh-mutate", "%s:%s" % (ST, qn), "freshness of %s not decided (%s)" % (name, why))
+                    chk.ok("fresh-mutate", inst, nontrivial=False)
+                src.pop(name)  # one obligation per object
+                if not src:
+                    break
+
+
+# ----------------------------------------------------------------------------
 def _analyse_own(chk):
     prog = pf.Program(chk.tree, [ST, FN, TD])
     chk.rule("guarded-param", "constant index beyond the sl_level-independent length of a parameter list is "
@@ -1165,6 +1526,14 @@ def _analyse_own(chk):
                                "feat_params (dependency sets through _ueg_rho_mult, loops iterated to a fixpoint)")
     chk.guard(rule_emit_index, prog)
     chk.guard(rule_rho_mult_theta, prog)
+    chk.rule("fresh-mutate", "an object returned by a helper of the same settings object and mutated by the caller is "
+                             "built fresh by the helper (literal / comprehension / copy), never persistent state or a memo")
+    chk.guard(rule_fresh_mutate, prog)
+    chk.rule("ueg-moment", "per spec: UEG value / UEG value of 'se' == Gaussian moment of that kernel (reference table "
+                           "shared with C02 chain-j / chain-i), canonical forms")
+    chk.guard(rule_ueg_moment, prog)
+    chk.floor("ueg-moment", 5, "VI 5 + VJ 3 + VK 3 specs other than se")
+    chk.floor("fresh-mutate", 1, "SDMXFullSettings.ueg_vector averages the table of _get_ueg_const in place")
     chk.floor("emit-index", 3, "SDMXFullSettings.ueg_vector usps[i] + normaliser loops indexing usps/uegs")
     chk.floor("rho-mult-theta", 3, "the concrete NLDF classes reaching _ueg_rho_mult")
     chk.floor("guarded-param", 14, "constant subscripts on parameter lists in the NLDF settings classes (44 today)")
@@ -1190,6 +1559,17 @@ def analyse(chk):
     _analyse_own(chk)
     chk.guard(lambda c_: core.include_findings(c_, 'C03', files=['ciderpress/dft/settings.py', 'ciderpress/dft/feat_normalizer.py'], rules=['ueg-deg', 'norm-usp'],
                                                why='UEG formulas must scale with the density as the declared powers say (DESIGN C13-2)'))
+
+
+def _memoise_ueg_const(text):
+    a = "    def _get_ueg_const(self):\n        known_ueg_vals = ["
+    b = "        known_dict = {k: -1 * v for k, v in zip(known_uegs, known_ueg_vals)}\n        return known_dict"
+    if a not in text or b not in text:
+        return None
+    text = text.replace(a, "    _ueg_memo = None\n\n    def _get_ueg_const(self):\n        if SDMXFullSettings._ueg_memo "
+                           "is not None:\n            return SDMXFullSettings._ueg_memo\n        known_ueg_vals = [", 1)
+    return text.replace(b, "        known_dict = {k: -1 * v for k, v in zip(known_uegs, known_ueg_vals)}\n"
+                           "        SDMXFullSettings._ueg_memo = known_dict\n        return known_dict", 1)
 
 
 def mutants(tree):
@@ -1248,6 +1628,19 @@ def mutants(tree):
         M("_ueg_rho_mult takes a0 from the first feature parameter set", ST,
           "rho_mult = _get_ueg_expnt(self.theta_params[0], t0, rho)",
           "rho_mult = _get_ueg_expnt(self.feat_params[0][0], t0, rho)", expect="rho-mult-theta"),
+        M("VJ erf factor built from the total exponent only (version-k formula in version j)", ST,
+          "                expnt3 = expnt2 * params[-1]\n                integral *= np.sqrt(expnt / (expnt + expnt3))\n            else:\n                raise ValueError\n            ueg_feats.append(rho * rho_mult * integral)\n        return np.asarray(ueg_feats, dtype=np.float64)\n\n    def get_reasonable_normalizer(self):\n        nvj",
+          "                expnt3 = expnt * params[-1]\n                integral *= np.sqrt(expnt / (expnt + expnt3))\n            else:\n                raise ValueError\n            ueg_feats.append(rho * rho_mult * integral)\n        return np.asarray(ueg_feats, dtype=np.float64)\n\n    def get_reasonable_normalizer(self):\n        nvj",
+          expect="ueg-moment"),
+        M("VI se_r2 moment inverted", ST, "integral *= 1.5 / expnt", "integral *= 1.5 * expnt", expect="ueg-moment"),
+        M("VK se_a2r4 coefficient", ST, "                integral *= 3.75\n", "                integral *= 3.25\n",
+          expect="ueg-moment"),
+        M("SDMXFull._get_ueg_const memoises its table in a class attribute", ST, fn=_memoise_ueg_const,
+          expect="fresh-mutate"),
+        M("normaliser UEG factors assume inh = 1 (right for nst/npa only)", FN,
+          "    def get_ueg(self, rho=1.0):\n        return self.const1 * rho**self.power1\n",
+          "    def get_ueg(self, rho=1.0):\n        return self.const1 * (1 + self.const2) ** self.power2 * rho**self.power1\n",
+          expect="norm-ueg"),
         M("SDMXFull usps interleaved like the normalisers (ueg_vector left alone)", ST,
           "                usps.append(3 + n)\n        for ratio in self.ratios:\n            for n, rdr in self.iterate_l1_terms(ratio):\n                usps.append(3 + n)",
           "                usps.append(3 + n)\n            for n, rdr in self.iterate_l1_terms(ratio):\n                usps.append(3 + n)",
